@@ -55,6 +55,7 @@ VARIABLES
   uidNext,  \* [Boxes -> Nat]                        AUTOINCREMENT counter + 1
   flg,      \* [Msgs -> SUBSET SharedFlags]          message_flags_v2 (shared by all mailboxes)
   used,     \* SUBSET Msgs                           message entities that exist
+  dead,     \* SUBSET Msgs                           deleted by the remote: never referred to again
   sel,      \* [Sessions -> Boxes \cup {None}]
   ro,       \* [Sessions -> BOOLEAN]                 EXAMINE
   snap,     \* [Sessions -> Seq([m, uid, f])]        f includes "Deleted"
@@ -69,9 +70,9 @@ VARIABLES
   steps,    \* number of steps taken (simulation only)
   hist      \* simulation: the behaviour so far (not part of the view)
 
-vars == <<rows, uidNext, flg, used, sel, ro, snap, res, q, idle, mirror, taint, ever, wire, last, steps, hist>>
-view == <<rows, uidNext, flg, used, sel, ro, snap, res, q, idle, mirror, taint>>
-viewNoMirror == <<rows, uidNext, flg, used, sel, ro, snap, res, q, idle, taint>>
+vars == <<rows, uidNext, flg, used, dead, sel, ro, snap, res, q, idle, mirror, taint, ever, wire, last, steps, hist>>
+view == <<rows, uidNext, flg, used, dead, sel, ro, snap, res, q, idle, mirror, taint>>
+viewNoMirror == <<rows, uidNext, flg, used, dead, sel, ro, snap, res, q, idle, taint>>
 
 -----------------------------------------------------------------------------
 (* Sequences of records carrying a message id in field m *)
@@ -146,7 +147,7 @@ Pop(rs, skip, held, pop, rem, passed) ==
        ELSE IF r.k = "Exists" /\ (r.m \in skip \/ (FixHoldOrder /\ held # {}))
             THEN Pop(Tail(rs), skip \ {r.m}, held \cup {r.m}, pop, Append(rem, r), passed)
        ELSE IF r.k = "Fetch" /\ r.m \in held
-            THEN IF FixFetchHold THEN Pop(Tail(rs), skip, held, pop, Append(rem, r), passed)
+            THEN IF FixFetchHold THEN Pop(Tail(rs), skip, held, pop, Append(rem, [r EXCEPT !.silent = FALSE]), passed)
                  ELSE Pop(Tail(rs), skip, held, Append(pop, r), rem, TRUE)
        ELSE Pop(Tail(rs), skip, held, Append(pop, r), rem, passed)
 
@@ -284,6 +285,7 @@ Init ==
   /\ uidNext = [b \in Boxes |-> 1]
   /\ flg = [m \in Msgs |-> {}]
   /\ used = {}
+  /\ dead = {}
   /\ sel = [s \in Sessions |-> None]
   /\ ro = [s \in Sessions |-> FALSE]
   /\ snap = [s \in Sessions |-> <<>>]
@@ -299,6 +301,10 @@ Init ==
   /\ hist = <<>>
 
 Ready(s) == ~idle[s] /\ (DrainFirst => q[s] = <<>>)
+
+\* commands are not explored on messages the remote has deleted meanwhile (the entity is purged from the
+\* database at an unspecified later time - when the last session that still sees it goes away)
+NoDead(s, P) == \A i \in P : i \in 1..Len(snap[s]) => snap[s][i].m \notin dead
 
 \* add messages (a sequence) at the end of mailbox b; returns the new rows and the items of the Exists update
 AddRows(rw, b, next, ms) ==
@@ -324,7 +330,7 @@ CmdSelect(s, b, readonly) ==
   \* on top of a state that already contains them (same family as F14)
   /\ taint' = [taint EXCEPT ![s] = IF \E i \in 1..Len(q[s]) : Relevant(q[s][i], b) THEN {"F14"} ELSE {}]
   /\ Log(IF readonly THEN "Examine" ELSE "Select", s, <<b>>, "OK")
-  /\ UNCHANGED <<rows, uidNext, flg, used, q, idle, ever>>
+  /\ UNCHANGED <<rows, uidNext, flg, used, dead, q, idle, ever>>
 
 \* the messages EXPUNGE / CLOSE remove: marked \Deleted in the *session's view* and still rows of the mailbox
 ToExpunge(s, P) ==
@@ -350,12 +356,12 @@ CmdClose(s, unselect) ==
   /\ wire' = Quiet
   /\ taint' = [taint EXCEPT ![s] = {}]
   /\ Log(IF unselect THEN "Unselect" ELSE "Close", s, <<>>, "OK")
-  /\ UNCHANGED <<uidNext, flg, used, idle, ever>>
+  /\ UNCHANGED <<uidNext, flg, used, dead, idle, ever>>
 
 -----------------------------------------------------------------------------
 (* APPEND of a fresh literal m into mailbox b                                 *)
 CmdAppend(s, b, m) ==
-  /\ Ready(s) /\ m \notin used
+  /\ Ready(s) /\ m \notin used /\ m \notin dead
   /\ IF FitsLimits(b, rows[b], uidNext[b], 1)
      THEN LET ar == AddRows(rows[b], b, uidNext[b], <<m>>)
               same == sel[s] = b
@@ -363,12 +369,13 @@ CmdAppend(s, b, m) ==
           IN /\ rows' = [rows EXCEPT ![b] = ar.rows]
              /\ uidNext' = [uidNext EXCEPT ![b] = ar.next]
              /\ used' = used \cup {m}
+             /\ dead' = dead
              /\ ever' = EverAdd(b, ar.items)
              /\ q' = EnqueueOthers(s, <<u>>)
              /\ IF same THEN FinishSel(s, <<u>>, "exp", <<>>, {}, FALSE)
                 ELSE IF sel[s] # None THEN FinishSel(s, <<u>>, "none", <<>>, {}, FALSE) ELSE FinishPlain(s)
              /\ Log("Append", s, <<b, m, uidNext[b]>>, "OK")
-     ELSE /\ UNCHANGED <<rows, uidNext, used, ever, q>>
+     ELSE /\ UNCHANGED <<rows, uidNext, used, dead, ever, q>>
           /\ FinishPlain(s)
           /\ Log("Append", s, <<b, m, 0>>, "NO")
   /\ UNCHANGED <<flg, sel, ro, idle>>
@@ -378,6 +385,7 @@ CmdAppend(s, b, m) ==
 \*   op in add/rem/set, F a set of flags, silent, asuid
 CmdStore(s, P, op, F, silent, asuid) ==
   /\ Ready(s) /\ sel[s] # None /\ ~ro[s]
+  /\ NoDead(s, P)
   /\ P # {} /\ P \subseteq 1..Len(snap[s])
   /\ LET b == sel[s]
          ps == AscSeq(P)
@@ -403,7 +411,7 @@ CmdStore(s, P, op, F, silent, asuid) ==
         /\ q' = EnqueueOthers(s, <<u>>)
         /\ FinishSel(s, <<u>>, "noexp", <<>>, IF silent THEN P ELSE {}, FALSE)
   /\ Log("Store", s, <<AscSeq(P), op, AscFlags(F), silent, asuid>>, "OK")
-  /\ UNCHANGED <<uidNext, used, sel, ro, idle, ever>>
+  /\ UNCHANGED <<uidNext, used, dead, sel, ro, idle, ever>>
 
 -----------------------------------------------------------------------------
 (* EXPUNGE, UID EXPUNGE (P = positions addressed by the UID set)              *)
@@ -418,7 +426,7 @@ CmdExpunge(s, P, byuid) ==
         /\ q' = EnqueueOthers(s, us)
         /\ FinishSel(s, us, "exp", <<>>, {}, FALSE)
   /\ Log(IF byuid THEN "UidExpunge" ELSE "Expunge", s, <<AscSeq(P)>>, "OK")
-  /\ UNCHANGED <<uidNext, flg, used, sel, ro, idle, ever>>
+  /\ UNCHANGED <<uidNext, flg, used, dead, sel, ro, idle, ever>>
 
 -----------------------------------------------------------------------------
 (* NOOP / CHECK: flush with permitExpunge                                     *)
@@ -426,7 +434,7 @@ CmdNoop(s) ==
   /\ Ready(s)
   /\ IF sel[s] # None THEN FinishSel(s, <<>>, "exp", <<>>, {}, FALSE) ELSE FinishPlain(s)
   /\ Log("Noop", s, <<>>, "OK")
-  /\ UNCHANGED <<rows, uidNext, flg, used, sel, ro, q, idle, ever>>
+  /\ UNCHANGED <<rows, uidNext, flg, used, dead, sel, ro, q, idle, ever>>
 
 (* FETCH 1:* (UID FLAGS): answers from the snapshot, then flush without expunge *)
 CmdFetch(s) ==
@@ -434,12 +442,13 @@ CmdFetch(s) ==
   /\ LET pre == [i \in 1..Len(snap[s]) |-> [t |-> "FETCH", n |-> i, uid |-> snap[s][i].uid, f |-> snap[s][i].f]]
      IN FinishSel(s, <<>>, "noexp", pre, {}, FALSE)
   /\ Log("Fetch", s, <<>>, IF Expunging(s) THEN "OK-EXPUNGEISSUED" ELSE "OK")
-  /\ UNCHANGED <<rows, uidNext, flg, used, sel, ro, q, idle, ever>>
+  /\ UNCHANGED <<rows, uidNext, flg, used, dead, sel, ro, q, idle, ever>>
 
 (* FETCH P (BODY[]) in a read-write selection: \Seen is written straight into the    *)
 (* snapshot and reported in the same FETCH line, then the +FLAGS (\Seen) action runs  *)
 CmdFetchBody(s, P) ==
   /\ Ready(s) /\ sel[s] # None /\ P # {} /\ P \subseteq 1..Len(snap[s])
+  /\ NoDead(s, P)
   /\ LET b == sel[s]
          ps == AscSeq(P)
          ms == [i \in 1..Len(ps) |-> snap[s][ps[i]].m]
@@ -463,9 +472,10 @@ CmdFetchBody(s, P) ==
                    /\ wire' = [Quiet EXCEPT ![s] = out]
                    /\ mirror' = [mirror EXCEPT ![s] = MirrorApply(mirror[s], out)]
                    /\ taint' = [taint EXCEPT ![s] = @ \cup (IF fr.passed THEN {"F15"} ELSE {})
+                                                     \cup (IF fr.ooo THEN {"F13"} ELSE {})
                                                      \cup (IF JumpsQueue(s, <<u>>) THEN {"F14"} ELSE {})]
   /\ Log("FetchBody", s, <<AscSeq(P)>>, "OK")
-  /\ UNCHANGED <<rows, uidNext, used, sel, ro, idle, ever>>
+  /\ UNCHANGED <<rows, uidNext, used, dead, sel, ro, idle, ever>>
 
 -----------------------------------------------------------------------------
 (* COPY / MOVE of positions P (ascending) to mailbox d                        *)
@@ -480,6 +490,7 @@ CopyEffect(s, ms, d, origin) ==
 
 CmdCopy(s, P, d) ==
   /\ Ready(s) /\ sel[s] # None /\ ~ro[s] /\ P # {} /\ P \subseteq 1..Len(snap[s])
+  /\ NoDead(s, P)
   /\ LET ps == AscSeq(P)
          ms == [i \in 1..Len(ps) |-> snap[s][ps[i]].m]
          ce == CopyEffect(s, ms, d, s)
@@ -493,10 +504,11 @@ CmdCopy(s, P, d) ==
         ELSE /\ UNCHANGED <<rows, uidNext, ever, q>>
              /\ FinishSel(s, <<>>, "noexp", <<>>, {}, FALSE)
              /\ Log("Copy", s, <<ps, d, <<>>>>, "NO")
-  /\ UNCHANGED <<flg, used, sel, ro, idle>>
+  /\ UNCHANGED <<flg, used, dead, sel, ro, idle>>
 
 CmdMove(s, P, d) ==
   /\ Ready(s) /\ sel[s] # None /\ ~ro[s] /\ P # {} /\ P \subseteq 1..Len(snap[s])
+  /\ NoDead(s, P)
   /\ LET b == sel[s]
          ps == AscSeq(P)
          ms == [i \in 1..Len(ps) |-> snap[s][ps[i]].m]
@@ -530,7 +542,7 @@ CmdMove(s, P, d) ==
                 ELSE /\ UNCHANGED <<rows, uidNext, ever, q>>
                      /\ FinishSel(s, <<>>, "noexp", <<>>, {}, FALSE)
                      /\ Log("Move", s, <<ps, d, <<>>>>, "NO")
-  /\ UNCHANGED <<flg, used, sel, ro, idle>>
+  /\ UNCHANGED <<flg, used, dead, sel, ro, idle>>
 
 -----------------------------------------------------------------------------
 (* IDLE: begin = flush with expunge; while idle, responders are handled at once *)
@@ -539,14 +551,14 @@ IdleBegin(s) ==
   /\ idle' = [idle EXCEPT ![s] = TRUE]
   /\ FinishSel(s, <<>>, "exp", <<>>, {}, FALSE)
   /\ Log("IdleBegin", s, <<>>, "OK")
-  /\ UNCHANGED <<rows, uidNext, flg, used, sel, ro, q, ever>>
+  /\ UNCHANGED <<rows, uidNext, flg, used, dead, sel, ro, q, ever>>
 
 IdleDone(s) ==
   /\ idle[s]
   /\ idle' = [idle EXCEPT ![s] = FALSE]
   /\ wire' = Quiet
   /\ Log("IdleDone", s, <<>>, "OK")
-  /\ UNCHANGED <<rows, uidNext, flg, used, sel, ro, snap, res, q, mirror, taint, ever>>
+  /\ UNCHANGED <<rows, uidNext, flg, used, dead, sel, ro, snap, res, q, mirror, taint, ever>>
 
 -----------------------------------------------------------------------------
 (* The session loop takes one update from its queue: State.ApplyUpdate        *)
@@ -568,7 +580,7 @@ Deliver(s) ==
                 /\ wire' = Quiet
                 /\ UNCHANGED <<snap, mirror>>
         /\ Log("Deliver", s, <<u.k, pass>>, "OK")
-  /\ UNCHANGED <<rows, uidNext, flg, used, sel, ro, idle, ever>>
+  /\ UNCHANGED <<rows, uidNext, flg, used, dead, sel, ro, idle, ever>>
 
 -----------------------------------------------------------------------------
 (* Connector updates: backend/connector_updates.go                            *)
@@ -576,6 +588,7 @@ Deliver(s) ==
 ConnSetBoxes(m, B) ==
   \* creation (MessagesCreated) is explored with one mailbox here: with several, the code enqueues the
   \* per-mailbox Exists updates in map-iteration order, which no replay can steer (C06 covers it)
+  /\ m \notin dead
   /\ (m \in used \/ Cardinality(B) = 1)
   /\ \A b \in B : HasMsg(rows[b], m) \/ FitsLimits(b, rows[b], uidNext[b], 1)
   /\ LET addTo == {b \in B : ~HasMsg(rows[b], m)}
@@ -590,6 +603,7 @@ ConnSetBoxes(m, B) ==
         /\ uidNext' = [b \in Boxes |-> IF b \in addTo THEN uidNext[b] + 1 ELSE uidNext[b]]
         /\ ever' = [b \in Boxes |-> IF b \in addTo THEN ever[b] \cup {<<uidNext[b], m>>} ELSE ever[b]]
         /\ used' = used \cup {m}
+        /\ dead' = dead
         /\ q' = EnqueueAll(addU \o remU)
   /\ wire' = Quiet
   /\ Log("ConnSetBoxes", None, <<m, AscBoxes(B)>>, "OK")
@@ -606,7 +620,7 @@ ConnSetFlags(m, F) ==
         /\ q' = EnqueueAll(us)
   /\ wire' = Quiet
   /\ Log("ConnSetFlags", None, <<m, AscFlags(F)>>, "OK")
-  /\ UNCHANGED <<rows, uidNext, used, sel, ro, snap, res, idle, mirror, taint, ever>>
+  /\ UNCHANGED <<rows, uidNext, used, dead, sel, ro, snap, res, idle, mirror, taint, ever>>
 
 \* MessageDeleted: removed from every mailbox (the entity is only marked deleted)
 ConnDelete(m) ==
@@ -614,9 +628,11 @@ ConnDelete(m) ==
   /\ LET rb == AscBoxes({b \in Boxes : HasMsg(rows[b], m)})
      IN /\ rows' = [b \in Boxes |-> RemoveMsgs(rows[b], {m})]
         /\ q' = EnqueueAll([i \in 1..Len(rb) |-> ExpungeU(rb[i], m)])
+  /\ used' = used \ {m}
+  /\ dead' = dead \cup {m}
   /\ wire' = Quiet
   /\ Log("ConnDelete", None, <<m>>, "OK")
-  /\ UNCHANGED <<uidNext, flg, used, sel, ro, snap, res, idle, mirror, taint, ever>>
+  /\ UNCHANGED <<uidNext, flg, sel, ro, snap, res, idle, mirror, taint, ever>>
 
 -----------------------------------------------------------------------------
 (* Argument sets a configuration can substitute for StoreArgs (cfg: StoreArgs <- SA_...) *)
@@ -705,7 +721,7 @@ SimDone == ~(Record /\ steps >= MaxSteps /\ Quiescent)
 RowsAscending == \A b \in Boxes : \A i \in 1..(Len(rows[b]) - 1) : rows[b][i].uid < rows[b][i + 1].uid
 RowsBelowNext == \A b \in Boxes : \A i \in 1..Len(rows[b]) : rows[b][i].uid < uidNext[b]
 RowsDistinct == \A b \in Boxes : \A i, j \in 1..Len(rows[b]) : rows[b][i].m = rows[b][j].m => i = j
-RowsUsed == \A b \in Boxes : MsgsOf(rows[b]) \subseteq used
+RowsUsed == \A b \in Boxes : MsgsOf(rows[b]) \subseteq used /\ used \cap dead = {}
 
 \* C01 -- sequence numbers are dense by construction; UIDs strictly ascending
 SnapAscending == \A s \in Sessions : \A i \in 1..(Len(snap[s]) - 1) : snap[s][i].uid < snap[s][i + 1].uid
